@@ -7,7 +7,6 @@ From V.proofs Require Import ApuLemmas.
 From Coq Require Import ZArith ZifyN ZifyNat ZifyBool.
 
 Definition rd (s : apu) (r : reg) : N := apu_bus_read s (reg_addr r).
-Definition is_on (s : apu) : bool := ctOn (ctl s).
 
 (* ------------------------------------------------------------------------------------------------- *)
 (* reads as a function of the view *)
